@@ -72,7 +72,8 @@ def configs(tier):
         # byte type of the view: char in the sanitizer build, std::byte (what the documentation uses) in the release build
         return [build.Cfg("g++", "17", "san", defs=H), build.Cfg("clang++", "20", "plain", defs=("SBEPP_DISABLE_ASSERTS", "C13_BYTE_KIND=2"))]
     cfgs = [build.Cfg(cxx, std, "san", defs=H) for cxx, std in build.all_compiler_std()]
-    cfgs += [build.Cfg("g++", "17", "san", defs=H + ("C13_BYTE_KIND=2",)), build.Cfg("clang++", "20", "san", defs=H + ("C13_BYTE_KIND=1",)),
+    # (clang++17, not g++17: the (g++, 17, san) triple is one of the three deep-DFS configurations, a fourth one adds an hour)
+    cfgs += [build.Cfg("clang++", "17", "san", defs=H + ("C13_BYTE_KIND=2",)), build.Cfg("clang++", "20", "san", defs=H + ("C13_BYTE_KIND=1",)),
              build.Cfg("g++", "20", "plain", defs=("SBEPP_DISABLE_ASSERTS", "C13_BYTE_KIND=2"))]
     cfgs += [build.Cfg("g++", "11", "plain", defs=("SBEPP_DISABLE_ASSERTS",)),
              build.Cfg("clang++", "23", "plain", defs=("SBEPP_DISABLE_ASSERTS",)),
